@@ -614,6 +614,37 @@ def scenario_close_with_pending(rec: Recorder, role: str, rnd: random.Random) ->
     rec.drain(None)
 
 
+def scenario_deep(rec: Recorder, role: str, rnd: random.Random) -> None:
+    """A complete SearchRequest whose filter is nested far beyond the interpreter's recursion limit (600 - 20000 levels of
+    not / and / or), alone, after valid units, whole or in pieces.  The library may answer with a message (if it can) or
+    with ProtocolError - and then the session is CLOSED."""
+    rec.new(role, "deep-nesting")
+    units: t.List[t.Tuple[bytes, t.Dict[str, t.Any]]] = []
+    if role == "server":
+        for j in range(rnd.randrange(0, 3)):
+            units.append(small_unit(rnd.choice(("searchReq", "extReq")), j + 1, rnd, limit=300))
+    n = rnd.choice((600, 1200, 3000, 20000))
+    tag = rnd.choice((0xA2, 0xA0, 0xA1))
+    f = b"\x87\x02cn"
+    for _ in range(n):
+        f = _tlv_(tag, f)
+    body = b"\x04\x00\x0a\x01\x00\x0a\x01\x00\x02\x01\x00\x02\x01\x00\x01\x01\x00" + f + b"\x30\x00"
+    deep = _tlv_(0x30, b"\x02\x01" + bytes([len(units) + 1]) + _tlv_(0x63, body))
+    units.append((deep, {"k": "garbage", "id": 0, "valid": False, "dig": ""}))
+    rec.stream([u[1] for u in units])
+    stream = b"".join(u[0] for u in units)
+    bounds = [0]
+    for u in units:
+        bounds.append(bounds[-1] + len(u[0]))
+    for p_ in chunkings(stream, bounds[:-1], rnd, rnd.choice((0, 0, 2, 5))):
+        if rec.recv(p_) != "ok":
+            break
+    # whatever happened: further input is either processed normally or refused because the session is closed
+    rec.stream([{"k": "garbage", "id": 0, "valid": False, "dig": ""}])
+    rec.recv(b"\x30\x03\x02\x01")
+    rec.recv(b"")
+
+
 def ad_notice(rnd: random.Random) -> t.Tuple[bytes, t.Dict[str, t.Any]]:
     """The NoticeOfDisconnection of MS-ADTS: message id 0, an ExtendedResponse without responseName, and the OID in an
     envelope extension  responseName [10] LDAPOID  after the protocolOp (documented by the library as supported)."""
@@ -835,6 +866,8 @@ def drive(seed: int, n_traces: int) -> t.List[t.Dict[str, t.Any]]:
             scenario_regcontrol(rec, role, rnd)
         if j % 10 == 8:
             scenario_close_with_pending(rec, role, rnd)
+        if j % 10 == 6:
+            scenario_deep(rec, role, rnd)
         if u < 4:
             scenario_stream(rec, role, rnd, garbage_p=0.0, violate_p=0.03)
         elif u < 6:
